@@ -34,7 +34,6 @@
 # ANY WAY OUT OF THE USE OF THIS SOFTWARE, EVEN IF ADVISED OF THE
 # POSSIBILITY OF SUCH DAMAGE.
 
-import itertools
 import sys
 import warnings
 from typing import Optional, Type, Union
@@ -900,15 +899,16 @@ class DynamicalMatrixGL(DynamicalMatrixNAC):
         return np.array(G_vec_list[G_norm2 < G_cutoff**2], dtype="double", order="C")
 
     def _get_minimum_g_rad(self, G_cutoff: float, g_rad: int) -> int:
-        """Return minimum g_rad."""
-        for _g_rad in range(g_rad, 0, -1):
-            for a, b, c in itertools.product((-1, 0, 1), repeat=3):
-                if (a, b, c) == (0, 0, 0):
-                    continue
-                norm = np.linalg.norm(self._rec_lat @ [a, b, c]) * _g_rad
-                if norm < G_cutoff:
-                    return _g_rad + 1
-        return g_rad
+        """Return minimum g_rad.
+
+        A reciprocal vector G = sum_i n_i b_i has n_i = a_i . G, hence
+        |n_i| <= |a_i| |G| < |a_i| G_cutoff with a_i the direct basis vectors.
+        This bound holds for any (also non-reduced or skewed) basis.
+
+        """
+        lattice = np.linalg.inv(self._rec_lat)  # row vectors a_i
+        max_length = np.linalg.norm(lattice, axis=1).max()
+        return max(int(np.floor(G_cutoff * max_length)) + 1, 1)
 
     def _get_G_vec_list(self, g_rad: int):
         """Return reciprocal lattice point vectors withing g_rad cutoff.
